@@ -253,6 +253,7 @@ func runC20(h *Harness) {
 	cycles := 1 + tp.Int(4)
 	faulty := tp.Chance(1, 2)
 	h.S.pPre = uint64(Pick(tp, 0, 30)) * (1 << 32) / 1000
+	h.S.pDelayDen, h.S.delayFor = Pick(tp, 0, 0, 6), 2*time.Second // short: the post-Cleanup census allows 42 s
 	sc["backend"], sc["cycles"], sc["faulty"] = backend, cycles, faulty
 	if faulty {
 		h.R.Config = "faulty"
